@@ -37,7 +37,7 @@ RULE = (
     "g != pi(G) and one with pi != identity."
 )
 PROBES = ["default_setting_solver", "entries_ge_2", "entry_with_lc_graph_different", "entry_with_nonidentity_map",
-          "target_as_nx", "target_as_g", "target_as_s", "target_as_dm", "seedless", "target_nodes_inserted_unsorted"]
+          "target_as_nx", "target_as_g", "target_as_s", "target_as_dm", "seedless", "target_nodes_inserted_unsorted", "solver_with_noise_model", "result_table_sorted"]
 REAL = ["graphiq.solvers.alternate_target_solver.AlternateTargetSolver.solve / graph_to_circ", "graphiq.utils.relabel_module",
         "graphiq.backends.stabilizer.functions.local_cliff_equi_check (lc_check, str_to_op, state_converter_circuit)",
         "graphiq.solvers.time_reversed_solver.TimeReversedSolver", "graphiq.solvers.solver_result.SolverResult", "both compilers"]
@@ -78,6 +78,8 @@ def gen_case(run_seed, tier):
         "default_solver": method == "default" and sz.random() < 0.6 and not big,
         "lseed": sz.randrange(10**9), "bug_rate": sz.choice([0.0, 0.0, 0.2, 0.5]),
         "shuffle_nodes": sz.random() < 0.35,
+        "noise": sz.random() < 0.25 and g[0] <= 5,
+        "sort_result": sz.random() < 0.5,
         "shuffle_edges": sz.random() < 0.35,
     }
 
@@ -152,7 +154,10 @@ def run_case(case):
                 setting.lc_orbit_depth = case["depth"]
                 if case["method"] != "default":
                     setting.lc_method = None if case["method"] == "none" else case["method"]
-                solver = AlternateTargetSolver(target=target, solver_setting=setting, seed=case["seed"])
+                solver = AlternateTargetSolver(target=target, solver_setting=setting, seed=case["seed"],
+                                               noise_model_mapping="depolarizing" if case.get("noise") else None)
+                if case.get("noise"):
+                    ctx.probe("solver_with_noise_model")
             res = solver.solve()
         except core.HarnessError:
             raise
@@ -169,53 +174,58 @@ def run_case(case):
         return ctx.result(False, sample=case)
     if len(entries) >= 2:
         ctx.probe("entries_ge_2")
-    seen = {}
-    has_lc_diff = has_perm = False
-    for i, ent in enumerate(entries):
-        try:
-            circ, info = ent
-            g_i, rmap = info["g"], info["map"]
-            pi = {a: b for a, b in rmap.items() if a != -1}
-        except Exception as e:
-            ctx.violate("A_entry_malformed", i, f"entry #{i} is not (circuit, {{'g','map',..}}): {e!r}", sig)
-            break
-        if sorted(pi) != list(range(n)) or sorted(pi.values()) != list(range(n)):
-            ctx.violate("A_map_not_permutation", i, f"entry #{i}: map {pi} is not a permutation of the {n} vertices", sig)
-            break
-        perm = [pi[v] for v in range(n)]
-        if perm != list(range(n)):
-            has_perm = True
-        piG = gref.relabel(A0, perm)
-        piG_edges = gref.edges_of(piG)
-        if sorted(g_i.nodes) != list(range(n)):
-            ctx.violate("A_lc_graph_vertices", i, f"entry #{i}: listed graph has vertices {sorted(g_i.nodes)}", sig)
-            break
-        key = gref.adj_from_edges(n, list(g_i.edges))
-        if key != piG:
-            has_lc_diff = True
-        # O3 distinct
-        if key in seen:
-            ctx.violate("A_duplicate_graph", i, f"entries #{seen[key]} and #{i} list the same graph {sorted(g_i.edges)}", sig)
-            break
-        seen[key] = i
-        # O2 LC-equivalent to the renamed target
-        orbit = gref.lc_orbit(piG, cap=20000 if n >= 8 else 200000)
-        if orbit is None:
-            ctx.probe("orbit_too_large_to_enumerate")
-        if orbit is not None and key not in orbit:
-            ctx.violate("A_not_lc_equivalent", i, f"entry #{i}: listed graph {sorted(g_i.edges)} is not LC-equivalent to the renamed target {piG_edges} (map {pi})", sig)
-            break
-        # O1 the circuit generates |pi(G)>
-        try:
-            circ.validate()
-        except Exception as e:
-            ctx.violate("A_invalid_circuit", i, f"entry #{i}: validate() -> {e!r}", sig)
-            break
-        if not circcheck.generates(ctx, circ, n, piG_edges, dict(sig, lc_graph_differs=key != piG), max_leaves=8, seed=case["lseed"] + i, use_dm=(n + circ.n_emitters) <= 6,
-                                   label=f"entry #{i} (map {pi}, listed graph {sorted(g_i.edges)}): "):
-            break
-        ctx.log("entry", i, perm, sorted(g_i.edges))
-    else:
+    flags = {"lc": False, "perm": False}
+
+    def judge(ents, tag, light):
+        seen = {}
+        for i, ent in enumerate(ents):
+            try:
+                circ, info = ent
+                g_i, rmap = info["g"], info["map"]
+                pi = {a: b for a, b in rmap.items() if a != -1}
+            except Exception as e:
+                ctx.violate("A_entry_malformed", i, f"{tag}entry #{i} is not (circuit, {{'g','map',..}}): {e!r}", sig)
+                return False
+            if sorted(pi) != list(range(n)) or sorted(pi.values()) != list(range(n)):
+                ctx.violate("A_map_not_permutation", i, f"{tag}entry #{i}: map {pi} is not a permutation of the {n} vertices", sig)
+                return False
+            perm = [pi[v] for v in range(n)]
+            if perm != list(range(n)):
+                flags["perm"] = True
+            piG = gref.relabel(A0, perm)
+            piG_edges = gref.edges_of(piG)
+            if sorted(g_i.nodes) != list(range(n)):
+                ctx.violate("A_lc_graph_vertices", i, f"{tag}entry #{i}: listed graph has vertices {sorted(g_i.nodes)}", sig)
+                return False
+            key = gref.adj_from_edges(n, list(g_i.edges))
+            if key != piG:
+                flags["lc"] = True
+            # O3 distinct
+            if key in seen:
+                ctx.violate("A_duplicate_graph", i, f"{tag}entries #{seen[key]} and #{i} list the same graph {sorted(g_i.edges)}", sig)
+                return False
+            seen[key] = i
+            # O2 LC-equivalent to the renamed target
+            orbit = gref.lc_orbit(piG, cap=20000 if n >= 8 else 200000)
+            if orbit is None:
+                ctx.probe("orbit_too_large_to_enumerate")
+            if orbit is not None and key not in orbit:
+                ctx.violate("A_not_lc_equivalent", i, f"{tag}entry #{i}: listed graph {sorted(g_i.edges)} is not LC-equivalent to the renamed target {piG_edges} (map {pi})", sig)
+                return False
+            # O1 the circuit generates |pi(G)>
+            try:
+                circ.validate()
+            except Exception as e:
+                ctx.violate("A_invalid_circuit", i, f"{tag}entry #{i}: validate() -> {e!r}", sig)
+                return False
+            if not circcheck.generates(ctx, circ, n, piG_edges, dict(sig, lc_graph_differs=key != piG), max_leaves=4 if light else 8, seed=case["lseed"] + i, use_dm=(not light) and (n + circ.n_emitters) <= 6,
+                                       label=f"{tag}entry #{i} (map {pi}, listed graph {sorted(g_i.edges)}): "):
+                return False
+            ctx.log("entry", i, perm, sorted(g_i.edges))
+        return True
+
+    ok_all = judge(entries, "", False)
+    if ok_all:
         # solver.result mirrors the returned list
         try:
             r = solver.result
@@ -225,6 +235,22 @@ def run_case(case):
             raise
         except Exception as e:
             ctx.violate("A_result_attr_mismatch", -1, f"solver.result unusable: {e!r}", sig)
+    if ok_all and not ctx.violations and case.get("sort_result"):
+        # the result table is re-ordered by the user (SolverResult.sort_by): every row must still pair a circuit with its
+        # own graph and map
+        try:
+            solver.result.sort_by("score")
+            r = solver.result
+            rows = [(r["circuit"][j], {"g": r["g"][j], "map": r["map"][j]}) for j in range(len(r))]
+            ctx.probe("result_table_sorted")
+        except core.HarnessError:
+            raise
+        except Exception as e:
+            rows = None
+            ctx.violate("A_result_attr_mismatch", -1, f"solver.result.sort_by('score') failed: {e!r}", sig)
+        if rows is not None:
+            judge(rows, "after sort_by: ", True)
+    has_lc_diff, has_perm = flags["lc"], flags["perm"]
     if has_lc_diff:
         ctx.probe("entry_with_lc_graph_different")
     if has_perm:
